@@ -201,28 +201,20 @@ def rule_constant_nodes(ctx, rule_id):
     ctx.floor(f"{rule_id} node stores inspected", n, 12)
 
 
-def rule_own_creates_idempotent(ctx):
-    """C19.d: a CREATE that fakesnow issues on its own initiative outside the connect lock (write_pandas(auto_create_table=True))
-    is idempotent — IF NOT EXISTS / OR REPLACE — so two sessions loading the same new table cannot fail on each other's
-    check-then-create."""
+def write_pandas_statements(prog, **kwargs):
+    """texts of the statements write_pandas sends through a cursor of the connection (its own DDL), one list per path"""
     from ..execmodel import ExecHooks, make_session
-
-    prog = ctx.prog
-    if not prog.has_fn("pandas_tools", "write_pandas"):
-        return
-    m = prog.mod("pandas_tools")
-    fn = prog.fn("pandas_tools", "write_pandas")
 
     class H(ExecHooks):
         def __init__(self):
             super().__init__(None)
             self.texts = []
 
-        def intercept(self, I, key, args, kwargs, site, f=None):
+        def intercept(self, I, key, args, kwargs_, site, f=None):
             if key.endswith("FakeSnowflakeCursor.execute"):
                 self.texts.append(args[0] if args else None)
                 I.effect("own-statement", args[0] if args else None, site)
-                if self_decides := I.decide(f"own statement {len(self.texts)} fails"):
+                if I.decide(f"own statement {len(self.texts)} fails"):
                     from ..interp import _Raise
                     from ..values import ExcV
                     raise _Raise(ExcV("snowflake.connector.errors.ProgrammingError", {"errno": Const(2003)}, []))
@@ -239,18 +231,34 @@ def rule_own_creates_idempotent(ctx):
     def run(I):
         duck, conn, cur = make_session()
         return I.call(I.global_lookup("pandas_tools", "write_pandas"), [conn, Obj("df", kind="df"), Sym("TABLE_NAME", typ="str", truthy=True)],
-                      {"auto_create_table": Const(True)}, None)
+                      dict(kwargs), None)
 
+    out = []
+    for p, h in zip(explore(prog, fac, run, max_paths=64), hooks):
+        out.append([" ".join((t.text() if isinstance(t, Str) else tagof(t)).split()) if t is not None else "" for t in h.texts])
+    return out
+
+
+def rule_own_creates_idempotent(ctx):
+    """C19.d: a CREATE that fakesnow issues on its own initiative outside the connect lock (write_pandas(auto_create_table=True))
+    is idempotent — IF NOT EXISTS / OR REPLACE — so two sessions loading the same new table cannot fail on each other's
+    check-then-create."""
+    import re as _re
+
+    prog = ctx.prog
+    if not prog.has_fn("pandas_tools", "write_pandas"):
+        return
+    m = prog.mod("pandas_tools")
+    fn = prog.fn("pandas_tools", "write_pandas")
     n = 0
     seen = set()
-    for p, h in zip(explore(prog, fac, run, max_paths=64), hooks):
-        for t in h.texts:
-            txt = " ".join((t.text() if isinstance(t, Str) else tagof(t)).split()) if t is not None else ""
+    for texts in write_pandas_statements(prog, auto_create_table=Const(True)):
+        for txt in texts:
             if not txt.upper().startswith("CREATE") or txt in seen:
                 continue
             seen.add(txt)
             n += 1
-            ok = bool(__import__("re").match(r"CREATE\s+(OR\s+REPLACE\s+)?(TEMP(ORARY)?\s+|TRANSIENT\s+)?TABLE\s+IF\s+NOT\s+EXISTS|CREATE\s+OR\s+REPLACE", txt, __import__("re").I))
+            ok = bool(_re.match(r"CREATE\s+(OR\s+REPLACE\s+)?(TEMP(ORARY)?\s+|TRANSIENT\s+)?TABLE\s+IF\s+NOT\s+EXISTS|CREATE\s+OR\s+REPLACE", txt, _re.I))
             ctx.ob("C19.d", "write_pandas(auto_create_table=True): the table is created idempotently", ok, m.loc(fn), txt[:70])
             if not ok:
                 ctx.violation("C19.d", "pandas_tools", "write_pandas", "auto-create is check-then-create", m.loc(fn),
